@@ -38,6 +38,7 @@ SIG_WRAP = "C20:signed-wrap-exploited-by-gcc"
 SIG_ALIAS = "C20:type-punned-access-exploited-by-gcc"
 SIG_EXPR = "C20:expr-data-refused"
 SIG_BLK = "C20:block-typed-param-assert"
+SIG_NAME = "C20:item-name-not-c-identifier"
 SIG_LD = "C20:ldouble-const-misprinted"
 SIG_REF = "C20:scalar-data-ref-is-value"
 SIG_VARIADIC = "C20:variadic-proto-without-named-param"
@@ -804,6 +805,21 @@ def features(text):
     return f
 
 
+def cc_kinds(errtext):
+    """gcc's error lines -> set of finding signatures (None for an unlisted kind of error)"""
+    kinds = set()
+    for l in errtext.split("\n"):
+        if "error" not in l:
+            continue
+        if "requires a named argument before" in l:
+            kinds.add(SIG_VARIADIC)
+        elif re.search(r"before ‘\.’ token|before '\.' token|stray ‘\.’|expected .* before numeric constant", l):
+            kinds.add(SIG_NAME)
+        else:
+            kinds.add(None)
+    return kinds
+
+
 def stage_corpus(ck, st, quick, viol):
     texts = corpus_texts(ck, quick)
     info = collections.Counter()
@@ -821,7 +837,7 @@ def stage_corpus(ck, st, quick, viol):
                 p = subprocess.run(["gcc", "-fsyntax-only", "-w", *std.split(), cfile], stdout=subprocess.PIPE, stderr=subprocess.STDOUT, text=True)
                 res["cc_" + nm] = p.returncode
                 if p.returncode != 0:
-                    res["cc_err_" + nm] = "\n".join(l for l in p.stdout.split("\n") if "error" in l)[:400]
+                    res["cc_err_" + nm] = "\n".join(l for l in p.stdout.split("\n") if "error" in l)[:4000]
                 else:
                     break
         for p_ in (mir, cfile):
@@ -852,18 +868,21 @@ def stage_corpus(ck, st, quick, viol):
             cls, sig = f"emit-fails rc={rc} {sorted(fe)}", None
         elif r.get("cc_default") == 0:
             cls, sig = "translated+accepted", "ok"
-        elif "named argument before" in ccerr and "variadic-noname" in fe and ccerr.count("error") == ccerr.count("named argument before"):
-            cls, sig = "rejected by gcc: `(...)` prototype", SIG_VARIADIC
         else:
-            cls, sig = "translated, rejected by gcc", None
+            kinds = cc_kinds(ccerr)
+            if kinds and kinds <= {SIG_VARIADIC, SIG_NAME}:
+                cls, sig = "rejected by gcc: " + "+".join(sorted(k.split(":")[1] for k in kinds)), tuple(sorted(kinds))
+            else:
+                cls, sig = "translated, rejected by gcc", None
         info[cls] += 1
         classes.setdefault((cls, sig), []).append((cid, text, r))
-    for (cls, sig), lst in classes.items():
-        if sig in ("ok", "skip"):
+    for (cls, sig0), lst in classes.items():
+        if sig0 in ("ok", "skip"):
             continue
         cid, text, r = min(lst, key=lambda x: len(x[1]))
-        viol.append(("corpus:" + cls, {"stage": "corpus", "module": cid, "class": cls, "count": len(lst), "emit_rc": r["emit_rc"],
-                                       "detail": r.get("err", "")[-300:], "cc_error": r.get("cc_err_gnu2x") or r.get("cc_err_default"),
+        for sig in (sig0 if isinstance(sig0, tuple) else (sig0,)):
+          viol.append(("corpus:" + cls, {"stage": "corpus", "module": cid, "class": cls, "count": len(lst), "emit_rc": r["emit_rc"],
+                                       "detail": r.get("err", "")[-300:], "cc_error": (r.get("cc_err_gnu2x") or r.get("cc_err_default") or "")[:600],
                                        "signature": sig, "mir": text if len(text) < 60000 else text[:60000],
                                        "case": {"kind": "emit", "mir": text if len(text) < 200000 else None, "compile": True,
                                                 "std": "" if sig != SIG_VARIADIC else ""},
@@ -983,18 +1002,19 @@ def body(ck, st, quick):
                                                what=rep.get("what", "saved case") + " — " + detail[:200],
                                                how_to_rerun=f"./check C20 --replay {os.path.relpath(f, VERIF)}")))
     ck.stage("corpus-replay", cases=ncorp, failing=sum(1 for v in kf_state.values() if v["fails"]))
+    only = os.environ.get("C20_ONLY", "ABCD")   # development aid: run a subset of the stages
     # ---- A
-    g, infoA = stage_templates(ck, st, rows, quick, viol)
+    g, infoA = stage_templates(ck, st, rows, quick, viol) if "A" in only else (None, {})
     ck.stage("templates", **{k: v for k, v in infoA.items() if k in ("evaluations", "functions", "failing_classes")})
     # ---- B
     known_present = bool(listed & {SIG_UGE, SIG_UBO})
-    infoB = stage_programs(ck, st, 160 if quick else 2400, 10 if quick else 20, viol, known_present)
+    infoB = stage_programs(ck, st, (160 if quick else 2400) if "B" in only else 0, 10 if quick else 20, viol, known_present)
     ck.stage("programs", programs=infoB["programs"], failure_classes=infoB["failure_classes"])
     # ---- C
-    infoC, sampC = stage_sections(ck, st, 40 if quick else 400, loop_fixed, viol)
+    infoC, sampC = stage_sections(ck, st, (40 if quick else 400) if "C" in only else 0, loop_fixed, viol)
     ck.stage("sections", **infoC)
     # ---- D
-    infoD = stage_corpus(ck, st, quick, viol)
+    infoD = stage_corpus(ck, st, quick, viol) if "D" in only else {}
     ck.stage("repository-corpus", **infoD)
     # ---- verdicts
     reported = set()
@@ -1032,7 +1052,8 @@ def body(ck, st, quick):
                               "corpus_replay": kf_state, "listed_deviations": sorted(listed), "loop_fixed": loop_fixed}
     for s in sampC:
         ck.sample({"section_module": s})
-    ck.sample({"template_function": g.funcs[0].split("\n"), "rows": {k: len(v) for k, v in rows.items() if isinstance(v, list)}})
+    if g is not None:
+      ck.sample({"template_function": g.funcs[0].split("\n"), "rows": {k: len(v) for k, v in rows.items() if isinstance(v, list)}})
     ck.cov["exhaustive"] = False
     ck.cov["corpus_replayed"] = ncorp
     ck.assumptions += ["gcc 12 on x86-64 is the C implementation: conversions modulo 2^N, arithmetic right shift, `<<` on negative values defined (gcc manual), "
